@@ -7,7 +7,7 @@ import torch
 from harness import coqio
 from harness.common import Check
 
-THEOREMS = ["C13_unique", "C13_unique_rejects", "C13_unique_slices", "C13_unique_slices_upto_24", "C13_random_range", "C13_random_cover",
+THEOREMS = ["C13_unrank_arith", "C13_unique", "C13_unique_rejects", "C13_unique_slices", "C13_unique_slices_upto_24", "C13_random_range", "C13_random_cover",
             "C13_conv_unique", "C13_conv_unique_rejects", "C13_positions_distinct", "C13_tree"]
 TRUSTED = [
     "Coq 8.16.1 kernel/coqc; theorems closed under the global context; the slice-level mirror of get_unique_connections equals the closed form for every size (C13_unique_slices; the computation up to in_dim 24 is kept as a cross-check); vm_compute for kernel evaluation of the model",
@@ -182,7 +182,19 @@ def conv_cases(ck):
             ck.disagree("conv 'random-unique' accepted more pairs than exist", case, signature={"scheme": "conv", "what": "accepts"})
             continue
         pa, pb = l.kernel_pairs
-        perms = [e[2] for e in log if e[0] == "randperm"][-K:]
+        # the sampler draws batches of s numbers below the number of pairs until s distinct ones are found, kernel after kernel
+        batches = [e[3] for e in log if e[0] == "randint" and e[1] == 0 and e[2] == P * (P - 1) // 2 and len(e[3]) == s]
+        perms, bi = [], 0
+        for k in range(K):
+            draws, seen = [], set()
+            while len(seen) < s and bi < len(batches):
+                draws += batches[bi]
+                seen |= set(batches[bi])
+                bi += 1
+            perms.append(draws)
+        if bi != len(batches) or len(perms) != K:
+            ck.broke("correspondence", "harness", f"{case}: the recorded draws do not match the sampler's batches ({len(batches)} batches, {bi} used)")
+            continue
         for k in range(K):
             A = [tuple(v) for v in pa[k].tolist()]
             B = [tuple(v) for v in pb[k].tolist()]
@@ -262,6 +274,24 @@ def run(ck: Check):
     ck.prove("Props/C13", THEOREMS)
     dense_cases(ck)
     conv_cases(ck)
+    # 'unique' wiring at the scale of the exported large classes: 2^depth distinct pairs out of ~10^8 possible ones must be drawn without
+    # listing them (the fourth convolution of ClgnCifar10Large4 has 40960 channels: 6.8e10 pairs); run under an address-space limit
+    from harness import subproc
+    job = {"kind_of_job": "unique-at-scale", "channels": 2048, "limit_gib": 4}
+    res = subproc.run_jobs(ck.scratch, [job], workers=1, timeout=600)[0]
+    for name in ("conv2d", "conv3d"):
+        case = {"kind": "unique-at-scale", "layer": name, "channels": 2048, "address_space_gib": 4}
+        ck.case(case, nontrivial=True, kind="unique-at-scale")
+        st = (res["steps"][0] if res["steps"] else {}).get(name)
+        if not res["done"] or st is None:
+            ck.disagree("building a 'unique' convolution with 2048 input channels killed the process", dict(case, stderr=res["stderr"][-300:]),
+                        signature={"what": "unique-at-scale", "kind": "crash"})
+        elif not st["built"]:
+            ck.disagree("a 'unique' convolution whose pairs fit easily (8 of 1.7e8) cannot be built: the sampler lists every possible pair",
+                        dict(case, error=st["error"]), signature={"what": "unique-at-scale", "kind": "resource"})
+        elif not (st["distinct"] and st["no_self"] and st["in_range"]):
+            ck.disagree("'unique' wiring at scale has a repeated pair, a self-pair or an index out of range", dict(case, **st),
+                        signature={"what": "unique-at-scale", "kind": "invariant"})
     return ck.finish()
 
 
